@@ -80,7 +80,10 @@ def report(ctx, r, source):
             "step": "a step could not be executed as in the model"}[r["kind"]]
     detail = "; ".join(r.get("diff") or [r.get("detail", "")])
     steps = r.get("steps") or [e["step"] for e in r["case"]["log"]]
-    ctx.violation(f"{r['kind']} [{r['shape']}] {detail[:160]}", f"{what} ({source}): {detail}", {"steps": steps, "failed_after": r["shape"]})
+    rep = {"steps": steps, "failed_after": r["shape"]}
+    if r["kind"] == "model":
+        rep["log"] = r["case"]["log"]       # with the model's answers, so that the replay compares them again
+    ctx.violation(f"{r['kind']} [{r['shape']}] {detail[:160]}", f"{what} ({source}): {detail}", rep)
 
 
 def nontrivial(c):
@@ -120,12 +123,27 @@ def run(ctx):
         if dev.violated != "QueriesAgree":
             raise vlib.ToolError(f"sanity run: deviation {d} was not rejected by TLC (violated={dev.violated})")
     # spec -> implementation: a seeded sample (interesting behaviours first)
-    n = 2400 if thorough else 150
-    hot = [c for c in cases if nontrivial(c)]
-    hot_ids = set(id(c) for c in hot)
-    rest = [c for c in cases if id(c) not in hot_ids]
-    chosen = rnd.sample(hot, min(len(hot), n * 2 // 3))
-    chosen += rnd.sample(rest, min(len(rest), n - len(chosen)))
+    n = 1200 if thorough else 150
+    # stratified: one bucket per multiset of step kinds, served round-robin, so that rare shapes
+    # (redactions, review comments, deletions) are always in the sample
+    buckets = {}
+    for c in cases:
+        sig = tuple(sorted(e["step"]["a"] + ":" + e["step"]["op"]["k"] for e in c["log"]))
+        buckets.setdefault(sig, []).append(c)
+    keys = sorted(buckets)
+    rnd.shuffle(keys)
+    for k in keys:
+        rnd.shuffle(buckets[k])
+    chosen = []
+    while len(chosen) < n and keys:
+        for k in list(keys):
+            if buckets[k]:
+                chosen.append(buckets[k].pop())
+                if len(chosen) >= n:
+                    break
+            else:
+                keys.remove(k)
+    ctx.cov["shape_classes"] = len(buckets)
     recs, stats = replay_cases(ctx, chosen, "mc", 8 if thorough else 6)
     for r in recs:
         report(ctx, r, "replay of a behaviour of the bounded model")
@@ -138,7 +156,7 @@ def run(ctx):
     ctx.cov["exhaustive"] = False
     # implementation -> spec
     nproc = 6
-    per = 40 if thorough else 5
+    per = 20 if thorough else 5
     steps = 14 if thorough else 10
     jobs, outs = [], []
     for i in range(nproc):
@@ -163,7 +181,7 @@ def run(ctx):
         recorded = ctx.read_ndjson(rec)
         ok, info, tres = ctx.validate("TraceCobCache", "TraceCobCache.cfg", rec, timeout=3000 if thorough else 600, heap="6g")
         if not ok:
-            at = tres.distinct - 1
+            at = tres.distinct  # 1-based number of the first record the model cannot follow
             h = []
             for r in recorded[:at]:
                 if r["ev"] == "reset":
@@ -200,7 +218,7 @@ def replay(ctx, path):
         print(json.dumps(d)[:2000])
         ctx.cleanup()
         return 0
-    case = {"log": [{"step": s} for s in steps]}
+    case = {"log": d.get("log") or [{"step": s} for s in steps]}
     print("behaviour:", " ".join(describe(s) for s in steps))
     p = ctx.write_cases([case], "one.ndjson")
     o = os.path.join(ctx.work, "one.out")
